@@ -142,10 +142,10 @@ def parse_item_block(lines, start, file, path):
             pending_insert = (where, mm.group(1).replace("\\n", "\n"), [])
             spec.inserts.append(pending_insert)
         elif b.startswith("replace"):
-            mm = re.match(r"replace(-all)?\[([^\]]+)\]\s*<<<(.*?)>>>\s*=>\s*<<<(.*)>>>$", b, re.S)
+            mm = re.match(r"replace(-all|\?)?\[([^\]]+)\]\s*<<<(.*?)>>>\s*=>\s*<<<(.*)>>>$", b, re.S)
             if not mm:
                 raise WeaveError("bad replace at line %d: %s" % (i + 1, b))
-            spec.replaces.append((mm.group(2), mm.group(3), mm.group(4), bool(mm.group(1))))
+            spec.replaces.append((mm.group(2), mm.group(3), mm.group(4), mm.group(1) or ""))
         elif cur_clause is not None:
             # continuation of the previous clause
             text, labels = _parse_clause_line(b)
@@ -620,7 +620,9 @@ def expand(unit_path, twin=False, repo=None):
                 old_ = old.replace("\\n", "\n")
                 new_ = new.replace("\\n", "\n")
                 cnt = text.count(old_)
-                if cnt == 0 or (cnt != 1 and not all_):
+                if cnt == 0 and all_ == "?":
+                    continue      # optional purely syntactic rewrite: nothing to do
+                if cnt == 0 or (cnt != 1 and all_ != "-all"):
                     raise WeaveError("%s :: %s: replace[%s] %r matched %d times" % (file, " :: ".join(path), rule, old, cnt))
                 text = text.replace(old_, new_)
                 applied.append({"rule": rule, "old": old, "new": new, "count": cnt})
